@@ -28,6 +28,18 @@ TRUSTED = ["python ast", "pandas rank/mean summaries"]
 HT = f"{PKG}.hypertuner.HyperTuner"
 
 
+def _debug_print_only(n: ast.AST) -> bool:
+    """`if self._debug: print(..)` (no else, nothing but prints): output only"""
+    if not (isinstance(n, ast.If) and not n.orelse):
+        return False
+    t = n.test
+    tests = t.values if isinstance(t, ast.BoolOp) and isinstance(t.op, ast.And) else [t]
+    if not any(dotted(x) == "self._debug" for x in tests):
+        return False
+    return all(isinstance(st, ast.Expr) and isinstance(st.value, ast.Call) and isinstance(st.value.func, ast.Name)
+               and st.value.func.id == "print" for st in n.body)
+
+
 def run(prog: Program, res: Result) -> None:
     P = "C19"
     res.rules = ["R1 grid loop complete, parameters set before the trials, row records the same point",
@@ -431,7 +443,7 @@ def run(prog: Program, res: Result) -> None:
         t = origin(rs.node, t) if isinstance(t, ast.Name) else t
         rv_ = origin(rs.node, rets_[0].value) if rets_[0].value is not None else None
         okrs = dotted(a0) in ("self.best_parameters", "self._best_params") and dotted(t) == "self._problem" and rv_ is c \
-            and not any(isinstance(n, (ast.If, ast.For, ast.While, ast.Try)) for n in own_nodes(rs))
+            and not any(isinstance(n, (ast.If, ast.For, ast.While, ast.Try)) and not _debug_print_only(n) for n in own_nodes(rs))
     res.ob(okrs, f"{rs.loc()} resolve(): set_config_parameters(best) then optimize(self._problem)", "resolve")
     if not okrs:
         bad("R5-resolve", rs.node, "resolve() does not apply the best parameters and then optimize the stored task",
